@@ -171,6 +171,8 @@ _SIGS = {
     "shim_set_bool_value": (c_int, [P, c_int]),
     "shim_array_foreach_count": (c_int, [P, c_void_p, c_size_t]),
     "shim_big_sort": (c_int, [c_long, c_int, c_int, c_int, c_char_p, c_size_t]),
+    "shim_array_ints": (c_long, [P, c_void_p, c_long]),
+    "shim_members_named_by_value": (c_long, [P]),
 }
 
 
